@@ -246,6 +246,27 @@ def run(ctx):
                 elif rc != 0:
                     res.violations.append(vlib.Violation("-race run failed: %s" % err[:200].decode("latin1"), {"args": fmt}))
             shutil.rmtree(d, ignore_errors=True)
+        # a scan whose phases outlast several ticker periods, progress on: the meter's reporter goroutine really runs next
+        # to the counting (on small repositories every phase is over before the first tick)
+        if "fl" in dir():
+            fenv = {"GOMAXPROCS": "4", "GORACE": "halt_on_error=0 exitcode=66"}
+            bins_keep = eng.bins
+            eng.bins = dict(bins_keep, sizer=race)
+            try:
+                for fmt in (["--json", "--progress"], ["-v", "--progress"]):
+                    rc, out, err, log = eng.run_fake(fl, forder, [], [], extra_args=fmt, env=fenv, timeout=300)
+                    nraces += 1
+                    res.case(("race-long-phases", tuple(fmt)), True)
+                    errb = err if isinstance(err, bytes) else str(err).encode()
+                    if b"DATA RACE" in errb or rc == 66:
+                        res.violations.append(vlib.Violation("the race detector reported a data race", {"args": fmt, "repository": "21000 blobs (fake git), progress on"},
+                                                             observed=errb[errb.find(b"DATA RACE") - 20:][:1500].decode("latin1")))
+                    elif rc != 0:
+                        res.violations.append(vlib.Violation("-race run failed: %s" % errb[-300:].decode("latin1"), {"args": fmt}))
+                    elif errb.count(b"\r") < 3:
+                        res.coverage_extra["race_long_phase_progress_frames"] = errb.count(b"\r")
+            finally:
+                eng.bins = bins_keep
         # degenerate scans (no tree, no commit reached: every loop of the second pipeline's consumer is empty, so nothing
         # orders the consumer against the feeder goroutine) under the race detector
         deg = S.Scenario()
